@@ -1,87 +1,10 @@
 // C14 - SAFE_DATA: when an AES entry point returns, no vector register and no dead stack memory holds a raw key,
 //       a round key, the GHASH key or one of its powers, or the encrypted XTS tweak.
-#include "../common/aes_engine.hpp"
+#include "../common/aes_ops.hpp"
 #include "../common/tramp.hpp"
-#include <unordered_set>
-
-struct Case {
-        std::string op; // e.g. "keyexp128/sse", "cbc_dec192/avx", "gcm128/sse:enc", "gcm256/isal:update_dec_nt", "xts128/avx:enc:raw"
-        uint64_t seed = 1, len = 0, aad_len = 0, pre_len = 0; // pre_len: bytes fed through update before the observed call (stream ops)
-        int tag_len = 16;
-};
-static J to_json(const Case &c)
-{
-        J j = J::obj();
-        j.set("op", c.op).set("seed", (unsigned long long) c.seed).set("len", (unsigned long long) c.len).set("aad_len", (unsigned long long) c.aad_len);
-        j.set("pre_len", (unsigned long long) c.pre_len).set("tag_len", c.tag_len);
-        return j;
-}
-static Case from_json(const J &j)
-{
-        Case c;
-        c.op = j.at("op").s;
-        c.seed = j.unum("seed", 1); c.len = j.unum("len", 0); c.aad_len = j.unum("aad_len", 0); c.pre_len = j.unum("pre_len", 0); c.tag_len = j.num("tag_len", 16);
-        return c;
-}
-
-static std::vector<std::string> g_ops;
-static std::vector<ae::GcmFam> g_gcm;
-static std::vector<ae::XtsFam> g_xts;
-static std::vector<ae::cbc::Ent> g_cbc;
-
-struct Secrets {
-        std::unordered_set<std::string> set;
-        std::vector<std::pair<std::string, std::string>> names; // value -> description (first wins)
-        void add(const uint8_t *p, const char *what)
-        {
-                // skip low-entropy values (would match pattern fills or zero padding by accident)
-                bool seen[256] = { false };
-                int distinct = 0;
-                for (int i = 0; i < 16; i++)
-                        if (!seen[p[i]]) { seen[p[i]] = true; distinct++; }
-                if (distinct < 8) return;
-                std::string v((const char *) p, 16);
-                if (set.insert(v).second) names.emplace_back(v, what);
-        }
-        void add_all(const uint8_t *p, size_t n, const char *what)
-        {
-                for (size_t o = 0; o + 16 <= n; o += 16) add(p + o, what);
-        }
-        void add_rev(const uint8_t *p, const char *what)
-        {
-                uint8_t r[16];
-                for (int i = 0; i < 16; i++) r[i] = p[15 - i];
-                add(r, what);
-        }
-        const char *what(const std::string &v) const
-        {
-                for (auto &n : names)
-                        if (n.first == v) return n.second.c_str();
-                return "?";
-        }
-};
-
-static void add_key_material(Secrets &S, const uint8_t *key, int bits)
-{
-        ref::Aes a(key, bits);
-        S.add(key, "raw key");
-        S.add(key + bits / 8 - 16, "raw key (upper half)");
-        auto e = a.enc_schedule(), d = a.dec_schedule();
-        S.add_all(e.data(), e.size(), "encryption round key");
-        S.add_all(d.data(), d.size(), "decryption round key");
-}
-static void add_ghash_material(Secrets &S, const uint8_t *key, int bits)
-{
-        ref::Aes a(key, bits);
-        uint8_t z[16] = { 0 }, h[16], p[16];
-        a.encrypt(z, h);
-        memcpy(p, h, 16);
-        for (int i = 1; i <= 48; i++) {
-                S.add(p, "GHASH key power");
-                S.add_rev(p, "GHASH key power (byte-reversed)");
-                ref::ghash_mul(p, h);
-        }
-}
+using aops::Case;
+using aops::Secrets;
+static aops::Ops g_O;
 
 // scan the captured registers and the dead stack; returns a description or ""
 static std::string scan(const Secrets &S, uint64_t call_rsp, uint8_t pattern, std::string &where_key)
@@ -116,176 +39,27 @@ static bool run(const Case &c, pbt::Ctx &ctx)
         auto failx = [&](const std::string &k, const std::string &m) { return ctx.fail(k + "|" + c.op, c.op + ": " + m); };
         guard::Arena A;
         guard::FaultInfo fi;
-        Secrets S;
+        aops::Built B;
         uint8_t pattern = 0xD7;
-        uint64_t args[12] = { 0 };
-        int nargs = 0;
-        void *fn = nullptr;
-        std::string family = c.op.substr(0, c.op.find(':'));
-        std::string sub = c.op.find(':') == std::string::npos ? "" : c.op.substr(c.op.find(':') + 1);
-        std::string exitclass;
-
-        if (c.op.compare(0, 6, "keyexp") == 0 || c.op.compare(0, 3, "cbc") == 0) {
-                const ae::cbc::Ent *e = nullptr;
-                for (auto &x : g_cbc)
-                        if (x.label() == c.op) e = &x;
-                if (!e) { ctx.label("absent-entry"); return true; }
-                std::vector<uint8_t> key = pbt::expandv(c.seed, e->bits / 8);
-                add_key_material(S, key.data(), e->bits);
-                ref::Aes ra(key.data(), e->bits);
-                fn = e->fn;
-                if (e->op == ae::cbc::OP_KEYEXP) {
-                        uint8_t *kb = A.alloc("key", key.size(), 1, guard::END);
-                        memcpy(kb, key.data(), key.size());
-                        uint8_t *enc = A.alloc("enc", 16 * 15, 16, guard::END, 1), *dec = A.alloc("dec", 16 * 15, 16, guard::END, 2);
-                        args[0] = (uint64_t) kb; args[1] = (uint64_t) enc; args[2] = (uint64_t) dec;
-                        nargs = 3;
-                        exitclass = "keyexp";
-                } else {
-                        uint64_t len = 16 * (c.len ? c.len : 1);
-                        auto sched = e->op == ae::cbc::OP_DEC ? ra.dec_schedule() : ra.enc_schedule();
-                        uint8_t *keys = A.alloc("keys", sched.size(), 16, guard::END);
-                        memcpy(keys, sched.data(), sched.size());
-                        uint8_t *iv = A.alloc("iv", 16, 16, guard::END, 3), *in = A.alloc("in", len, 1, guard::END, 4), *out = A.alloc("out", len, 1, guard::END, 5);
-                        args[0] = (uint64_t) in; args[1] = (uint64_t) iv; args[2] = (uint64_t) keys; args[3] = (uint64_t) out; args[4] = len;
-                        nargs = 5;
-                        exitclass = "blocks%16=" + std::to_string((len / 16) % 16);
-                }
-        } else if (c.op.compare(0, 3, "gcm") == 0) {
-                const ae::GcmFam *g = nullptr;
-                for (auto &x : g_gcm)
-                        if (x.label() == family) g = &x;
-                if (!g) { ctx.label("absent-family"); return true; }
-                std::vector<uint8_t> key = pbt::expandv(c.seed, g->bits / 8), iv = pbt::expandv(c.seed + 1, 12), aad = pbt::expandv(c.seed + 2, c.aad_len);
-                add_key_material(S, key.data(), g->bits);
-                add_ghash_material(S, key.data(), g->bits);
-                uint8_t *kd = A.alloc("key_data", sizeof(isal_gcm_key_data), 16, guard::END, 0x11);
-                uint8_t *cd = A.alloc("context_data", sizeof(isal_gcm_context_data), 16, guard::END, 0x22);
-                uint8_t *kb = A.alloc("key", key.size(), 1, guard::END);
-                memcpy(kb, key.data(), key.size());
-                uint8_t *ivb = A.alloc("iv", 12, 1, guard::END);
-                memcpy(ivb, iv.data(), 12);
-                uint8_t *ab = A.alloc("aad", c.aad_len, 1, guard::END);
-                memcpy(ab, aad.data(), c.aad_len);
-                uint8_t *tag = A.alloc("tag", 16, 1, guard::END, 9);
-                bool observed_is_pre = (sub == "pre" || sub == "precomp");
-                if (!observed_is_pre || sub == "precomp") {
-                        // prepare key data (for "precomp" only the expanded keys are needed before the observed call)
-                        if (sub == "precomp") {
-                                uint8_t tmp[16 * 15];
-                                if (!g->keyexp || !g->precomp) { ctx.label("absent-entry"); return true; }
-                                ((ae::keyexp_fn) g->keyexp)(kb, kd, tmp);
-                                memset(tmp, 0, sizeof tmp);
-                        } else if (!ae::gcm_prepare(*g, kb, kd, fi)) {
-                                A.describe(fi);
-                                return !failx("fault-pre", fi.where);
-                        }
-                }
-                uint64_t plen = c.pre_len;
-                std::vector<uint8_t> data = pbt::expandv(c.seed + 3, plen + c.len);
-                uint8_t *in = A.alloc("in", plen + c.len, 64, guard::END), *out = A.alloc("out", plen + c.len, 64, guard::END, 7);
-                memcpy(in, data.data(), plen + c.len);
-                bool nt = sub.find("_nt") != std::string::npos;
-                int dec = sub.find("dec") != std::string::npos ? 1 : 0;
-                if (sub == "pre") {
-                        fn = g->pre;
-                        args[0] = (uint64_t) kb; args[1] = (uint64_t) kd;
-                        nargs = 2;
-                        exitclass = "pre";
-                } else if (sub == "precomp") {
-                        fn = g->precomp;
-                        args[0] = (uint64_t) kd;
-                        nargs = 1;
-                        exitclass = "precomp";
-                } else if (sub == "init") {
-                        fn = g->init;
-                        args[0] = (uint64_t) kd; args[1] = (uint64_t) cd; args[2] = (uint64_t) ivb; args[3] = (uint64_t) ab; args[4] = c.aad_len;
-                        nargs = 5;
-                        exitclass = "aad%16=" + std::to_string(c.aad_len % 16) + (c.aad_len > 128 ? ",long" : "");
-                } else if (sub.compare(0, 6, "update") == 0 || sub.compare(0, 8, "finalize") == 0) {
-                        if (!g->init || !g->update[dec][0]) { ctx.label("absent-entry"); return true; }
-                        bool ok = guard::guarded_call(fi, [&] {
-                                if (g->api) ((ae::gcm_init_ifn) g->init)(kd, cd, ivb, ab, c.aad_len);
-                                else ((ae::gcm_init_fn) g->init)(kd, cd, ivb, ab, c.aad_len);
-                                if (plen) {
-                                        if (g->api) ((ae::gcm_update_ifn) g->update[dec][0])(kd, cd, out, in, plen);
-                                        else ((ae::gcm_update_fn) g->update[dec][0])(kd, cd, out, in, plen);
-                                }
-                        });
-                        if (!ok) {
-                                A.describe(fi);
-                                return !failx("fault-setup", fi.where);
-                        }
-                        if (sub.compare(0, 6, "update") == 0) {
-                                fn = g->update[dec][nt];
-                                args[0] = (uint64_t) kd; args[1] = (uint64_t) cd; args[2] = (uint64_t) (out + plen); args[3] = (uint64_t) (in + plen); args[4] = c.len;
-                                nargs = 5;
-                                exitclass = "carry=" + std::to_string(plen % 16 ? 1 : 0) + ",len%16=" + std::to_string(c.len % 16) + ",blocks=" +
-                                            std::to_string(c.len / 16 > 50 ? 50 : c.len / 16);
-                        } else {
-                                fn = g->finalize[dec];
-                                args[0] = (uint64_t) kd; args[1] = (uint64_t) cd; args[2] = (uint64_t) tag; args[3] = c.tag_len;
-                                nargs = 4;
-                                exitclass = "carry=" + std::to_string(plen % 16 ? 1 : 0) + ",tag=" + std::to_string(c.tag_len);
-                        }
-                } else { // one-shot enc / dec [_nt]
-                        fn = g->oneshot[dec][nt];
-                        args[0] = (uint64_t) kd; args[1] = (uint64_t) cd; args[2] = (uint64_t) out; args[3] = (uint64_t) in; args[4] = c.len; args[5] = (uint64_t) ivb;
-                        args[6] = (uint64_t) ab; args[7] = c.aad_len; args[8] = (uint64_t) tag; args[9] = c.tag_len;
-                        nargs = 10;
-                        exitclass = "len%16=" + std::to_string(c.len % 16) + ",blocks=" + std::to_string(c.len / 16 > 50 ? 50 : c.len / 16) + ",aad%16=" + std::to_string(c.aad_len % 16);
-                }
-                if (!fn) { ctx.label("absent-entry"); return true; }
-                // the family's own precomputed hash-key area counts as GHASH key material too
-                if (!observed_is_pre) S.add_all(kd + 16 * 15, sizeof(isal_gcm_key_data) - 16 * 15, "precomputed GHASH key table entry");
-        } else if (c.op.compare(0, 3, "xts") == 0) {
-                const ae::XtsFam *x = nullptr;
-                for (auto &f : g_xts)
-                        if (f.label() == family) x = &f;
-                if (!x) { ctx.label("absent-family"); return true; }
-                int dec = sub.find("dec") != std::string::npos, expanded = sub.find("expanded") != std::string::npos;
-                fn = x->fn[dec][expanded];
-                if (!fn) { ctx.label("absent-entry"); return true; }
-                size_t kl = x->bits / 8;
-                std::vector<uint8_t> k1 = pbt::expandv(c.seed, kl), k2 = pbt::expandv(c.seed + 1, kl), tw = pbt::expandv(c.seed + 2, 16);
-                add_key_material(S, k1.data(), x->bits);
-                add_key_material(S, k2.data(), x->bits);
-                ref::Aes a1(k1.data(), x->bits), a2(k2.data(), x->bits);
-                uint8_t et[16];
-                a2.encrypt(tw.data(), et);
-                S.add(et, "encrypted XTS tweak");
-                std::vector<uint8_t> k1a = k1, k2a = k2;
-                if (expanded) { k2a = a2.enc_schedule(); k1a = dec ? a1.dec_schedule() : a1.enc_schedule(); }
-                uint64_t len = c.len < 16 ? 16 : c.len;
-                uint8_t *k1b = A.alloc("k1", k1a.size(), 1, guard::END), *k2b = A.alloc("k2", k2a.size(), 1, guard::END), *twb = A.alloc("tweak", 16, 1, guard::END);
-                memcpy(k1b, k1a.data(), k1a.size());
-                memcpy(k2b, k2a.data(), k2a.size());
-                memcpy(twb, tw.data(), 16);
-                uint8_t *in = A.alloc("in", len, 1, guard::END, 4), *out = A.alloc("out", len, 1, guard::END, 5);
-                args[0] = (uint64_t) k2b; args[1] = (uint64_t) k1b; args[2] = (uint64_t) twb; args[3] = len; args[4] = (uint64_t) in; args[5] = (uint64_t) out;
-                nargs = 6;
-                exitclass = "len%16=" + std::to_string(len % 16 ? 1 : 0) + ",blocks%8=" + std::to_string(len / 16 % 8) + (len >= 128 ? ",bulk" : "");
-        } else {
-                ctx.label("unknown-op");
-                return true;
-        }
-
-        tramp::prepare(fn, args, nargs, pattern, 0, true);
+        int br = aops::build(c, g_O, A, B, ctx);
+        if (br == 1 || br == 3) return true;
+        if (br == 2) return false;
+        tramp::prepare(B.fn, B.args, B.nargs, pattern, 0, true);
         bool ok = guard::guarded_call(fi, [&] { vtramp(); });
         if (!ok) {
                 A.describe(fi);
                 return !failx("fault", "fault: " + fi.where);
         }
-        tramp::Result R = tramp::finish(nargs);
+        tramp::Result R = tramp::finish(B.nargs);
         std::string wk;
-        std::string found = scan(S, R.call_rsp, pattern, wk);
+        std::string found = scan(B.S, R.call_rsp, pattern, wk);
         ctx.label("op=" + c.op);
         ctx.nontrivial = true;
-        ctx.nt_key = c.op + "|" + exitclass;
+        ctx.nt_key = c.op + "|" + B.exitclass;
         if (!found.empty()) {
                 // root-cause key: entry + where + what kind of secret (not the input)
                 std::string kind = found.substr(0, found.find(" left"));
-                if (failx(wk + "|" + kind, found + " [" + exitclass + "]")) return false;
+                if (failx(wk + "|" + kind, found + " [" + B.exitclass + "]")) return false;
         }
         return true;
 }
@@ -295,58 +69,12 @@ int main(int argc, char **argv)
         pbt::Prop<Case> P;
         P.id = "C14";
         P.setup = [](pbt::Ctx &ctx) {
-                for (auto &e : ae::cbc::discover())
-                        if (e.runnable) { g_cbc.push_back(e); g_ops.push_back(e.label()); }
-                for (auto &g : ae::gcm_families()) {
-                        if (!g.runnable) continue;
-                        g_gcm.push_back(g);
-                        if (g.pre) g_ops.push_back(g.label() + ":pre");
-                        if (g.precomp) g_ops.push_back(g.label() + ":precomp");
-                        g_ops.push_back(g.label() + ":init");
-                        for (const char *d : { "enc", "dec" }) {
-                                int di = d[0] == 'd';
-                                g_ops.push_back(g.label() + ":" + d);
-                                if (g.oneshot[di][1]) g_ops.push_back(g.label() + ":" + d + "_nt");
-                                g_ops.push_back(g.label() + ":update_" + d);
-                                if (g.update[di][1]) g_ops.push_back(g.label() + ":update_" + d + "_nt");
-                                g_ops.push_back(g.label() + ":finalize_" + d);
-                        }
-                }
-                // the internal C-level pre functions (shared by dispatcher and legacy)
-                for (auto &x : ae::xts_families()) {
-                        if (!x.runnable) continue;
-                        g_xts.push_back(x);
-                        for (const char *d : { "enc", "dec" })
-                                for (const char *e : { "raw", "expanded" }) g_ops.push_back(x.label() + ":" + d + ":" + e);
-                }
-                std::string only = ctx.optstr("op", "");
-                if (!only.empty()) {
-                        std::vector<std::string> f;
-                        for (auto &o : g_ops)
-                                if (o.find(only) != std::string::npos) f.push_back(o);
-                        g_ops = f;
-                }
-                if (g_ops.empty()) { fprintf(stderr, "HARNESS-ERROR: no AES entry available\n"); exit(3); }
+                g_O.discover(ctx.optstr("op", ""));
+                if (g_O.names.empty()) { fprintf(stderr, "HARNESS-ERROR: no AES entry available\n"); exit(3); }
         };
-        P.gen = [](pbt::Ctx &) {
-                using namespace pbt;
-                Case c;
-                c.op = g_ops[rng<size_t>(0, g_ops.size() - 1)];
-                c.seed = rng64(1, UINT64_MAX - 8);
-                bool nt = c.op.find("_nt") != std::string::npos;
-                if (c.op.compare(0, 3, "cbc") == 0) c.len = weighted({ 6, 1 }) == 0 ? rng<uint64_t>(1, 40) : rng<uint64_t>(41, 300);
-                else if (c.op.compare(0, 3, "xts") == 0) c.len = weighted({ 8, 2, 1 }) == 0 ? rng<uint64_t>(16, 400) : rng<uint64_t>(401, 5000);
-                else {
-                        c.len = weighted({ 1, 8, 3 }) == 0 ? 0 : rng<uint64_t>(1, coin(1, 4) ? 4200 : 900);
-                        c.aad_len = weighted({ 1, 6, 2 }) == 0 ? 0 : rng<uint64_t>(1, coin(1, 5) ? 700 : 48);
-                        c.pre_len = weighted({ 2, 3, 2 }) == 0 ? 0 : rng<uint64_t>(1, 200);
-                        if (nt) c.pre_len = c.pre_len / 64 * 64;
-                        c.tag_len = pick<int>({ 16, 12, 8 });
-                }
-                return c;
-        };
-        P.to_json = to_json;
-        P.from_json = from_json;
+        P.gen = [](pbt::Ctx &) { return aops::gen_case(g_O); };
+        P.to_json = [](const Case &c) { return aops::to_json(c); };
+        P.from_json = [](const J &j) { return aops::from_json(j); };
         P.run = run;
         return pbt::main_(argc, argv, P);
 }
